@@ -245,3 +245,88 @@ def bec2_header(vc):
         vc.prove("create_from_raw_fmt-inverse", back.to_raw_bin_fmt() == vk.to_string())
     src = open(B.__file__).read()
     vc.prove("literal-in-crypto.py", "3059301306072A8648CE3D020106082A8648CE3D03010703420004" in src and "der_header_len = 27" in src)
+
+
+# ---------------------------------------------------------------------------------------
+# point validation on import (every decoder ends in VerifyingKey.from_public_point -> Public_key.__init__):
+#   accepted  <=>  0 <= x < p  and  0 <= y < p  and  the curve contains (x, y)            (cofactor-1 curves)
+# in particular coordinates equal to 0 are in range: on 8 of the 17 curves (0, sqrt(b)) is a valid public key.
+
+def fam_validate(seed, tier):
+    import random
+    rnd = random.Random(seed)
+    from pyvc.harness import ensure_repo_importable
+    ensure_repo_importable()
+    import importlib
+    C = importlib.import_module("register_crypto_plugin.ecdsa.curves")
+    for name in CURVES:
+        cv = getattr(C, name)
+        p, a, b = cv.curve.p(), cv.curve.a(), cv.curve.b()
+        if cv.curve.cofactor() != 1:
+            continue            # SECP112r2 (cofactor 4): the subgroup test n*Q == infinity is C17's scalar multiplication
+        if p % 4 == 3:
+            y0 = pow(b, (p + 1) // 4, p)
+            if (y0 * y0 - b) % p == 0:
+                yield dict(curve=name, x=0, y=y0)
+                yield dict(curve=name, x=0, y=p - y0)
+        g = cv.generator
+        gx, gy = g.x(), g.y()
+        for (x, y) in [(gx, gy), (gx, p - gy), (gx, gy + p), (gx + p, gy), (-1, gy), (gx, -1), (p, 0), (0, 0), (gx, gy + 1),
+                       (0, p), (p - 1, gy)]:
+            yield dict(curve=name, x=x, y=y)
+
+
+@proof("C19/Public_key.point-validation", functions=[("register_crypto_plugin.ecdsa.ecdsa", "Public_key.__init__")],
+       family=fam_validate)
+def point_validation(vc):
+    E = vc.module("register_crypto_plugin.ecdsa.ecdsa")
+    C = vc.module("register_crypto_plugin.ecdsa.curves")
+    name = vc.choice("curve", CURVES)
+    cv = getattr(C, name)
+    p = cv.curve.p()
+    if cv.curve.cofactor() != 1:
+        return
+    x = vc.int("x", -(1 << 530), 1 << 530)
+    y = vc.int("y", -(1 << 530), 1 << 530)
+
+    class Pt:
+        def x(self):
+            return x
+
+        def y(self):
+            return y
+
+    if vc.symbolic:
+        on = vc.fresh_int("on_curve", 0, 1)
+
+        class Curve:
+            """the curve seen through contains_point (C17: the Weierstrass equation mod p), cofactor 1"""
+            def p(self):
+                return p
+
+            def contains_point(self, px, py):
+                return on == 1
+
+            def cofactor(self):
+                return 1
+
+        class Gen:
+            def curve(self):
+                return Curve()
+
+            def order(self):
+                return cv.order
+        gen = Gen()
+        want = vc.And(0 <= x, x < p, 0 <= y, y < p, on == 1)
+    else:
+        gen = cv.generator
+        a, b = cv.curve.a(), cv.curve.b()
+        want = 0 <= x < p and 0 <= y < p and (y * y - (x * x * x + a * x + b)) % p == 0
+    out = vc.call(E.Public_key, gen, Pt())
+    vc.prove("rejections-are-InvalidPointError", out.returned or out.raised(E.InvalidPointError), repr(out.exc))
+    if out.returned:
+        vc.prove("accepted=>in-range-and-on-curve", want)
+        vc.cover("accepted")
+    else:
+        vc.prove("rejected=>out-of-range-or-off-curve", vc.Not(want) if vc.symbolic else not want)
+        vc.cover("rejected")
